@@ -523,6 +523,9 @@ fn scenarios(dir: &Path, tier: Tier) -> Vec<Scenario> {
 		v.push(tile_scenario(dir, kind, &format!("{kind} 3 threads"), vec![vec![(9, 256, 5)], vec![(3, 1, 2)], vec![(9, 255, 5)]], Some(2)));
 		if tier == Tier::Thorough {
 			v.push(tile_scenario(dir, kind, &format!("{kind} 3 threads x 2 lookups"), vec![vec![(9, 256, 5), (0, 0, 0)], vec![(3, 1, 2), (9, 256, 6)], vec![(9, 255, 5), (9, 256, 5)]], Some(2)));
+			v.push(tile_scenario(dir, kind, &format!("{kind} 3 threads bound 3"), vec![vec![(9, 256, 5)], vec![(9, 256, 6)], vec![(9, 511, 511)]], Some(3)));
+			v.push(tile_scenario(dir, kind, &format!("{kind} 4 threads"), vec![vec![(9, 256, 5)], vec![(3, 1, 2)], vec![(9, 255, 5)], vec![(9, 256, 6)]], Some(2)));
+			v.push(tile_scenario(dir, kind, &format!("{kind} 2 threads x 3 lookups"), vec![vec![(9, 256, 5), (9, 255, 5), (0, 0, 0)], vec![(9, 256, 6), (9, 256, 5), (9, 300, 5)]], Some(3)));
 		}
 	}
 	v
